@@ -13,7 +13,8 @@ RULE = ("samples of 1-12 trees over 3-8 taxa (namespace sometimes with a hole = 
         "extra member no tree carries, outside the domain and judged on the domain-free clauses only), drawn around a base topology so "
         "that majority splits exist, rooted / unrooted / unspecified rooting (rarely mixed), polytomies and unary nodes, dyadic / zero / "
         "None lengths, tree weights None / 1 / dyadic / all zero, use_tree_weights on and off, thresholds {None, 0, 1/4, 1/2, "
-        "GREATER_THAN_HALF, 5/8, 3/4, 1}; targets from the sample or perturbed; support as fraction / percentage / label; every case is a "
+        "GREATER_THAN_HALF, 5/8, 3/4, 1} plus ATTAINABLE frequencies k/n (n trees, n in {3,5,6,7,9,...,15,49,98,103,107}, unit weights, handed over "
+        "as float(k)/n and judged by the integer comparison count >= k; oracle only); unanimous splits must be reported as exactly 1.0; targets from the sample or perturbed; support as fraction / percentage / label; every case is a "
         "self-contained description (tokens of every tree) that `--replay` re-runs; non-trivial = at least two distinct topologies")
 MODELLED_NOT_VERIFIED = [
     "C05: the Lean model (Model/C05.lean on C01/C04) is hand-written from SplitDistribution.count_splits_on_tree / calc_freqs / consensus_tree, "
@@ -153,7 +154,23 @@ def trees_of_case(dendropy, c):
 
 
 def thr_value(dendropy, thr):
+    """the float handed to the library.  A threshold given as {"num": k, "den": n} is the ATTAINABLE frequency k/n, handed over as
+    the correctly rounded quotient float(k)/n (what a user writes as k/n)"""
+    if isinstance(thr, dict):
+        return float(thr["num"]) / thr["den"]
     return gth(dendropy) if thr == "GTH" else thr
+
+
+def thr_exact(dendropy, thr):
+    """the threshold the oracle compares with, exactly: k/n for an attainable frequency, else the rational value of the float"""
+    if isinstance(thr, dict):
+        return Fraction(thr["num"], thr["den"])
+    v = thr_value(dendropy, thr)
+    return None if v is None else Fraction(v)
+
+
+def thr_label(thr):
+    return "%d/%d" % (thr["num"], thr["den"]) if isinstance(thr, dict) else str(thr)
 
 
 def recs_line(c):
@@ -276,6 +293,8 @@ def check_sample(ctx, dendropy, case, pending):
     tns, trees = trees_of_case(dendropy, case)
     use_w, thr, incl = case["use_weights"], case["threshold"], case["incl_external"]
     thr_v = thr_value(dendropy, thr)
+    thr_f = thr_exact(dendropy, thr)
+    thr = thr_label(thr)
     distinct = len({c01.canon_rooted(t) for t in trees})
     ctx.case(["summ", stable_hash(case)], distinct >= 2, sample={k: case[k] for k in ("ns", "use_weights", "threshold", "trees")}
              if len(trees) <= 3 else None, kind="summ")
@@ -315,6 +334,10 @@ def check_sample(ctx, dendropy, case, pending):
         if bad:
             ctx.fail("frequency", "%s[%d] = %r, weighted fraction of trees containing it = %s" % (name, bad[0], got[bad[0]], fr[bad[0]]), case)
             return
+        one = [s for s, f in fr.items() if f == 1 and got[s] != 1.0]
+        if one:
+            ctx.fail("frequency", "%s[%d] = %r for a split that every tree contains (the fraction is exactly 1)" % (name, one[0], got[one[0]]), case)
+            return
         absent = max(fr) + 2
         if d[absent] != 0:
             ctx.fail("frequency", "%s reports %r for a split that occurs in no tree" % (name, d[absent]), case)
@@ -335,7 +358,6 @@ def check_sample(ctx, dendropy, case, pending):
     mixed = (True in rootings) and len(rootings) > 1       # rooted and not-rooted trees in one sample: no rooting state to inherit
     crooted = rootings == {True}
     full_sets = all(tu.leafset_masks(t)[id(t.seed_node)] == Fmask for t in trees)    # the property's domain
-    thr_f = None if thr_v is None else Fraction(thr_v)
     for route in ("TreeList.consensus", "TreeArray.consensus_tree", "SplitDistribution.consensus_tree"):
         if len(rootings) > 1 and route != "SplitDistribution.consensus_tree":
             continue       # TreeArray refuses mixed rooting flags by design
@@ -366,7 +388,7 @@ def check_sample(ctx, dendropy, case, pending):
         for nd, s in node_splits(con)[0]:
             want = fr.get(s, Fraction(0))
             sup = getattr(nd, "support", None)
-            if sup is None or not close(sup, float(want), 1e-12):
+            if sup is None or not close(sup, float(want), 1e-12) or (want == 1 and sup != 1.0):
                 ctx.fail("support", "%s: node with split %d carries support %r, frequency is %s" % (route, s, sup, want), case)
                 break
         if mixed or not full_sets:
@@ -425,7 +447,7 @@ def check_sample(ctx, dendropy, case, pending):
             want = fr.get(s, Fraction(0)) * (100 if pct else 1)
             sup = getattr(nd, "support", None)
             annot.setdefault(s, set()).add(sup)
-            if sup is None or not close(sup, float(want), 1e-12):
+            if sup is None or not close(sup, float(want), 1e-12) or (fr.get(s) == 1 and sup != (100.0 if pct else 1.0)):
                 ctx.fail("support", "%s: support %r for split %d, frequency %s%s" % (route, sup, s, fr.get(s, 0), " (as percentage)" if pct else ""), case)
                 break
             if as_label:
@@ -496,6 +518,8 @@ def check_sample(ctx, dendropy, case, pending):
                     ctx.fail("mcc-score", "%s-of-support score of tree %d reported as %r, from the frequencies it is %r" % (kind, i, scores[i], float(sc)), case)
                     break
     # ---- correspondence
+    if isinstance(case["threshold"], dict):
+        return      # attainable non-dyadic thresholds are judged by the oracle only (the model compares exact rationals with the float's value)
     thr_tok = "N" if thr_v is None else tu.frac(thr_v)
     line = "summ %d %s %d %d %d %s %d %s" % (
         use_w, thr_tok, incl, allmask, len(members), " ".join(map(str, members)), len(trees), recs_line(case))
@@ -626,6 +650,8 @@ def run_collapse(ctx, dendropy, case, pending_c):
     tns, trees = trees_of_case(dendropy, case)
     use_w, thr = case["use_weights"], case["threshold"]
     thr_v = thr_value(dendropy, thr)
+    thr_f = thr_exact(dendropy, thr)
+    thr = thr_label(thr)
     fr, _ = oracle_freqs(trees, use_w)
     ctx.case(["collapse", stable_hash(case)], len(trees) >= 2, kind="collapse")
     got_model = None
@@ -633,7 +659,6 @@ def run_collapse(ctx, dendropy, case, pending_c):
         tgt, ids = tree_of_rec(dendropy, case["target"], tns)
         before = root_tip(tgt)
         nsp, _L = node_splits(tgt)
-        thr_f = Fraction(thr_v)
         weak_leaf = any(fr.get(s, Fraction(0)) < thr_f for nd, s in nsp if not nd._child_nodes)
         want_internal = sorted(s for nd, s in nsp if nd._child_nodes and nd is not tgt.seed_node and fr.get(s, Fraction(0)) >= thr_f)
         if route == "TreeArray":
@@ -666,6 +691,8 @@ def run_collapse(ctx, dendropy, case, pending_c):
                     route, thr, got_internal, want_internal), case)
         if route == "TreeArray":
             got_model = got
+    if isinstance(case["threshold"], dict):
+        return
     line = "collapse %d %s %d %s %s %s" % (use_w, tu.frac(thr_v), len(trees), recs_line(case), case["target"]["rooted"], " ".join(case["target"]["tree"]))
     pending_c.append((line, case, got_model))
 
@@ -882,9 +909,62 @@ def run_more(ctx, dendropy, case):
                 kind, c01.canon_rooted(best), tops, [c01.canon_rooted(trees[i]) for i in tops]), case)
 
 
+# ------------------------------------------------------------------ thresholds equal to attainable frequencies (oracle only)
+ATTAIN_COUNTS = [3, 5, 6, 6, 7, 7, 9, 10, 11, 12, 12, 13, 14, 15, 49, 98, 103, 107]
+
+
+def gen_attain(ctx, dendropy):
+    """n trees (n not a power of two), unit weights, full leaf sets, one rooting state; the threshold is the frequency k/n of one
+    of the sample's splits (or the next attainable value above it, or n/n), handed to the library as float(k)/n.  With unit
+    weights the statement's comparison `count/n >= k/n` is the integer comparison count >= k, which is what the oracle does."""
+    rng = ctx.rng
+    n = rng.randint(4, 7)
+    hole = rng.random() < 0.15
+    total = n + (1 if hole else 0)
+    tns = tu.make_namespace(dendropy, 0, labels=["t%d" % i for i in range(total)], holes=[rng.randrange(total)] if hole else [])
+    taxa = list(tns)
+    rooted = rng.choice([True, False, None])
+    k = rng.choice(ATTAIN_COUNTS)
+    base = c04.gen_on(dendropy, rng, tns, taxa, rooted, 0.0)
+    alt = c04.perturb(dendropy, rng, base)
+    trees = []
+    for _ in range(k):
+        r = rng.random()
+        t = c04.clone(dendropy, base) if r < (0.8 if k > 20 else 0.55) else (c04.clone(dendropy, alt) if r < 0.85 else c04.perturb(dendropy, rng, base))
+        t.weight = None
+        trees.append(t)
+    if k > 20 and rng.random() < 0.5:
+        trees = [c04.clone(dendropy, base) for _ in range(k)]       # unanimous sample
+    if any(basal_split(t) is not None for t in trees):
+        return None
+    if rng.random() < 0.5:
+        for t in trees:
+            t.weight = 1.0
+    use_w = rng.random() < 0.5
+    fr, _ = oracle_freqs(trees, use_w)
+    F = set(tns.accession_index(t) for t in tns)
+    crooted = rooted is True
+    inform = [s for s in fr if nontrivial(canon_split(s, members_mask(tns), crooted), F, crooted)] or list(fr)
+    s = rng.choice(sorted(inform))
+    cnt = fr[s] * k
+    assert cnt.denominator == 1
+    cnt = int(cnt)
+    r = rng.random()
+    num = cnt if r < 0.7 else (min(k, cnt + 1) if r < 0.85 else k)
+    thr = {"num": num, "den": k}
+    if rng.random() < 0.5:
+        src = trees[rng.randrange(k)]
+        return sample_case(tns, trees, use_w, thr, rng.random() < 0.3, target=tree_rec(src), summ_opts={"pct": rng.random() < 0.2, "label": False})
+    tgt = c04.clone(dendropy, trees[rng.randrange(k)])
+    tgt.encode_bipartitions()      # normal form only, see gen_collapse
+    return dict(sample_case(tns, trees, use_w, thr, False), op="collapse", target=tree_rec(tgt))
+
+
 # ------------------------------------------------------------------ dispatch
 def gen_case(ctx, dendropy, op):
     rng = ctx.rng
+    if op == "attain":
+        return gen_attain(ctx, dendropy)
     if op == "summ":
         tns, trees = gen_sample(dendropy, rng, ctx)
         src = trees[rng.randrange(len(trees))] if rng.random() < 0.75 else c04.perturb(dendropy, rng, trees[0])
@@ -925,7 +1005,7 @@ def run(ctx):
     for _ in range(ctx.pick(1500, 30000)):
         if ctx.out_of_time():
             break
-        op = rng.choices(["summ", "collapse", "incremental", "more"], [0.5, 0.17, 0.17, 0.16])[0]
+        op = rng.choices(["summ", "collapse", "incremental", "more", "attain"], [0.42, 0.15, 0.15, 0.14, 0.14])[0]
         case = gen_case(ctx, dendropy, op)
         if case is None:
             continue
